@@ -37,7 +37,7 @@ def check_one(s, skip=()):
     line, soup, exc = common.impl_parse(s, 0, skip)
     if soup is None:
         return None                      # does not parse in strict mode: out of scope
-    if oracles.has_bare_args(soup):
+    if oracles.has_bare_args(soup) or oracles.hidden_bare(s):
         return None                      # side condition on fixed-signature commands
     out = str(soup)
     if oracles.aligned(s, out):
